@@ -86,4 +86,48 @@ CHECKS["C06"] = {
     "level_note": "Trusted: reference interpreter (harness/gx.h), structural-class computation in harness/c01_order.cpp (what may legitimately be merged).",
 }
 
+CHECKS["C09"] = {
+    "title": "A sub-graph behaves the same inlined or nested, at any depth",
+    "level": "exploration",
+    "technique": "exhaustive bounded enumeration of sub-graph bodies x input histories, each wired inlined / nested / nested-in-nested / "
+                 "depth 3 on the real engine; differential between variants + reference interpreter + lifecycle monitor",
+    "design_ref": "DESIGN.md 2/C09",
+    "parts": [{"name": "nested", "exe": "c09_nested", "sources": ["c09_nested.cpp"], "sub": "c09", "shards": 16}],
+    "rule": "every sub-graph body of <= N statements over {self-scheduling ticker with period 1|2|3 (2 emissions), stateful accumulator, "
+            "1- and 2-input compute, pass-through of a boundary input}, inputs from the two boundary ports or earlier statements, no dead "
+            "statement; wired through wire<G> (inlined), nested_<G>, nested_ in nested_, and depth 3; x every tick pattern of the two outer "
+            "sources over T=4 cycles (incl. never-ticking = idle parent driven only by the child's own schedule). Oracle: outer sink stream "
+            "identical across the four variants and equal to the reference; every internal evaluation equals the reference's (no wake-up "
+            "lost or moved); a child graph is never evaluated before its parent's current time. non-trivial = nested variant, body with an "
+            "internal timer, at least one outer tick.",
+    "bounds": {"quick": "bodies <= 3 statements, T=4 (256 histories), depth 0..3", "thorough": "bodies <= 4 statements, T=4, depth 0..3"},
+    "min_counters": {"quick": {"nontrivial": 20000, "nested.bodies": 1000}},
+    "assumptions": COMMON_ASSUMPTIONS + ["Bodies larger than the bound, REF-shaped boundaries (C13) and captured outer ports are not explored here."],
+    "level_text": "Complete enumeration of the bounded body x history space, decided differentially between inlined and nested wirings of the same definition.",
+    "level_note": "Trusted: the reference interpreter (harness/gx.h) and the observer events of nested graphs.",
+}
+
+CHECKS["C02"] = {
+    "title": "Simulation honours every scheduled wake-up at exactly its time, in order",
+    "level": "model_checking",
+    "technique": "exhaustive enumeration of wake-up-requesting programs x tick histories x run windows on the real simulation executor, each "
+                 "run compared step by step with a discrete-event reference model (cycle-time set, per-node evaluation times, next_scheduled_time)",
+    "design_ref": "DESIGN.md 2/C02",
+    "parts": [{"name": "wakeups", "exe": "c09_nested", "sources": ["c09_nested.cpp"], "sub": "c02", "shards": 16}],
+    "rule": "every program of 1-2 scripted self-scheduling sources (tick exactly at their history cycles through NodeScheduler) followed by <= K "
+            "statements over {ticker (period,count) in {(1,3),(2,2),(3,2),(5,2)}, 1/2-input compute, stateful accumulator, nested_ of five bodies "
+            "holding tickers at depth 1 and 2, far timers and consecutive-step timers}; x every tick pattern of the sources over T cycles; x run "
+            "windows start in {MIN_ST, MIN_ST+7} x end in {start+1,+3,+6,+40}. Oracle: the observed set of root cycle times EQUALS the reference's "
+            "requested times inside [start,end) (nothing dropped, coalesced, early, late or extra), strictly increasing; every node evaluation "
+            "(time, inputs, output) equals the reference; after every cycle next_scheduled_time() equals the earliest pending request. "
+            "states = distinct observed traces (cycle times + per-node evaluation times and values); transitions = engine cycles executed; non-trivial = a nested child was evaluated "
+            "and the run had >= 3 cycles.",
+    "bounds": {"quick": "K<=2, T=4, 8 windows", "thorough": "K<=3, T=5, 8 windows"},
+    "min_counters": {"quick": {"nontrivial": 20000, "states": 5000}},
+    "assumptions": COMMON_ASSUMPTIONS + ["Requests through the raw GraphView::schedule_node on an already-scanned node are not a documented wake-up surface and are not driven.",
+                                           "stdlib replay sources wake every buffered cycle by design; the exact cycle-set oracle therefore uses scripted sources."],
+    "level_text": "Every execution in the bounded space is a trace of the real executor validated against the discrete-event model; the cycle-time set must match exactly.",
+    "level_note": "Trusted: the discrete-event reference in harness/gx.h (ref_run) and LifecycleObserver::on_before/after_graph_evaluation as the report of cycle times.",
+}
+
 NOT_APPLICABLE = {}
